@@ -546,22 +546,10 @@ func runC17(res *lib.Result, tier string, seed int64, args []string) error {
 		}
 		sort.Strings(missing)
 		sort.Strings(extra)
-		// known class K1: special check off ⇒ the cross-file pass is skipped; its only surviving type here is 9
+		// (the cross-file pass used to be skipped with the goto-label switch still on, dropping type 9: finding K1,
+		// repaired — the gate now lists all six cross-file types, theorem special_gate_harmless)
 		if specialOff {
 			res.Dist("e2e.specialOff")
-			var rest []string
-			hit := false
-			for _, k := range missing {
-				if strings.Contains(k, "|9|") {
-					hit = true
-				} else {
-					rest = append(rest, k)
-				}
-			}
-			missing = rest
-			if hit {
-				res.HitKnown("C17-K1", "with the switches of types 2, 3, 10, 11, 12 all off the whole cross-file pass is replaced by the symbol-only pass, which also drops goto-label diagnostics (type 9) whose own switch is on", caseText)
-			}
 		}
 		// known class K5: a pattern that matches the *referenced* module other.lua also silences the
 		// type-11 diagnostics about it in the referencing files (gate in findTableDefine)
